@@ -67,15 +67,23 @@ Definition phrasing_elems := ["a"; "abbr"; "area"; "audio"; "b"; "bdi"; "bdo"; "
   "dfn"; "em"; "embed"; "i"; "iframe"; "img"; "input"; "ins"; "kbd"; "keygen"; "label"; "link"; "map"; "mark"; "math";
   "meta"; "meter"; "noscript"; "object"; "output"; "progress"; "q"; "ruby"; "s"; "samp"; "script"; "select";
   "small"; "span"; "strong"; "sub"; "sup"; "svg"; "template"; "textarea"; "time"; "u"; "var"; "video"; "wbr"; "text"]%string.
+(* xhtml checkAttributes: class and id are written by the exporter; one diagnostic per repeated key *)
+Fixpoint check_attributes (seen : list str) (pairs : list str) (s : st) : st :=
+  match pairs with
+  | k :: _ :: r => check_attributes (k :: seen) r (if existsb (str_eqb k) seen then err "in -a option: attribute is reserved or given twice" s else s)
+  | _ => s
+  end.
 Definition xdtag (cmd : str) (pairs : list str) (s : st) : dtag * st :=
   match fmt s with
-  | FX => (mkDtag cmd pairs, if existsb (fun e => str_eqb cmd (runes e)) flow_elems then s else err "element does not allow all flowing content (warning)" s)
+  | FX => let s := check_attributes [R "class"; R "id"] pairs s in
+          (mkDtag cmd pairs, if existsb (fun e => str_eqb cmd (runes e)) flow_elems then s else err "element does not allow all flowing content (warning)" s)
   | FL => (mkDtag cmd pairs, s)
   | _ => (mkDtag cmd [], s)
   end.
 Definition xmtag (cmd : option str) (b e : str) (pairs : list str) (s : st) : mtag * st :=
   match fmt s with
-  | FX => let c := match cmd with Some (x :: r) => x :: r | _ => R "em" end in
+  | FX => let s := check_attributes [R "class"; R "id"] pairs s in
+          let c := match cmd with Some (x :: r) => x :: r | _ => R "em" end in
           (mkMtag b c e pairs, if existsb (fun x => str_eqb c (runes x)) phrasing_elems then s else err "not an html phrasing element" s)
   | FL => (mkMtag b (match cmd with Some (x :: r) => x :: r | _ => R "emph" end) e pairs, s)
   | FM => (mkMtag b (match cmd with Some (x :: r) => x :: r | _ => R "I" end) e [], s)
